@@ -102,10 +102,13 @@ def name_list(rng):
 
 def piece(rng, k, strkeys):
     r = rng.random()
+    if r < 0.04:
+        return rng.choice(["", "{}", '""', "{ }", "{{}}"])     # empty values are legal for the splitter
+    pad = rng.choice(["", "", "", " ", "  ", "\n "]) if r > 0.5 else ""
     if r < 0.55:
-        return "{" + balanced(rng, k) + "}"
+        return "{" + pad + balanced(rng, k) + rng.choice(["", pad]) + "}"
     if r < 0.8:
-        return '"' + balanced(rng, k, in_quotes=True) + '"'
+        return '"' + pad + balanced(rng, k, in_quotes=True) + rng.choice(["", pad]) + '"'
     if r < 0.9:
         return str(rng.choice([0, 7, 12, 1999, 2024, 13]))
     return rng.choice(strkeys + STRKEYS[:3] + ["undefd"])
@@ -208,7 +211,7 @@ def make_doc(rng, knobs=None):
             if not k["collide"] and key in string_keys:
                 key = "s%d" % bi
             string_keys.append(key)
-            v = value(rng, k, [])
+            v = value(rng, k, list(string_keys[:-1]) * 2)     # chains: a string may name an earlier string
             emit("@" + rng.choice(["string", "String", "STRING"]) + rng.choice(["", " "]) + "{" + _ws(rng, k, "x") + key
                  + _ws(rng, k, "eq") + "=" + _ws(rng, k, "eq") + v + _ws(rng, k, "x") + "}")
             b.update({"key": key, "value": v})
@@ -290,6 +293,27 @@ def big_doc(rng, family, scale):
     if family == "deep_nesting":
         d = scale
         return "@article{k, title = " + "{" * d + "x" + "}" * d + "}\n" + e % 2
+    if family == "deep_nesting_blocks":
+        d = scale
+        kind = rng.choice(["@comment{", "@preamble{", "@string{s = ", "@string{s = {", "free text "])
+        close = {"@string{s = {": "}}", "free text ": ""}.get(kind, "}")
+        return e % 1 + kind + "{" * d + "x" + "}" * d + close + "\n" + e % 2
+    if family == "deep_quote_nesting":
+        d = scale
+        return "@article{k, title = \"" + "{" * d + "x" + "}" * d + "\" # " * min(d, 2000) + "s}\n" + e % 2
+    if family == "long_runs":
+        unit = rng.choice(["@" + "a" * 7, "@", "a", "\\", '"', "{", "}", "=", ",", "#", " ", "\t", "@a{", "@comment", "1", "é", "\r", "\r\n", "@a_b-"])
+        run_ = unit * max(1, scale // max(1, len(unit)))
+        where = rng.choice(["top", "value", "key", "comment", "after_at"])
+        if where == "top":
+            return e % 1 + run_ + "\n" + e % 2
+        if where == "value":
+            return "@article{k, url = {http://x.org/" + run_ + "/post}}\n" + e % 2
+        if where == "key":
+            return "@article{" + run_ + ", title = {T}}\n" + e % 2
+        if where == "comment":
+            return "@comment{" + run_ + "}\n" + e % 2
+        return e % 1 + "see @" + run_ + " for details\n" + e % 2
     if family == "deep_unclosed":
         return e % 1 + "@article{k, title = " + "{" * scale + "x"
     if family == "unterminated_eof":
@@ -305,4 +329,5 @@ def big_doc(rng, family, scale):
 
 
 BIG_FAMILIES = ["blank_runs", "banner", "many_entries", "long_value", "deep_nesting", "deep_unclosed",
-                "unterminated_eof", "long_comment_block", "mark_soup", "many_fields"]
+                "unterminated_eof", "long_comment_block", "mark_soup", "many_fields",
+                "deep_nesting_blocks", "deep_quote_nesting", "long_runs", "long_runs", "deep_nesting_blocks"]
